@@ -350,7 +350,10 @@ pub(crate) fn rewrite_range_pat<T: Rewrite>(
     let lspan = span.with_hi(end_kind.span.lo());
     let rspan = span.with_lo(end_kind.span.hi());
     // `1. ..=2.`: a lower bound that ends in a `.` must not touch the dots of the range.
-    let lhs_ends_with_dot = lhs.is_some() && context.snippet(lspan).trim_end().ends_with('.');
+    let lhs_ends_with_dot = lhs
+        .as_ref()
+        .and_then(|lhs| lhs.rewrite(context, shape))
+        .map_or(false, |lhs| lhs.ends_with('.'));
     let infix = if lhs_ends_with_dot && !infix.starts_with(' ') {
         format!(" {infix}")
     } else {
